@@ -71,7 +71,7 @@ IMPORT_STYLES = [
     ('import os.path', 'os.path.basename("a/b")'),
     ('import json as js', 'js.dumps([1])'),
     ('import helper, other as oth2', 'helper.hg(1) + oth2.of(1)'),      # statements binding several names, some of them bound before
-    ('from helper import hf, HK as HK2', 'hf(1) + HK2().hm(1)'),
+    ('from helper import hf, HK as HKx', 'hf(1) + HKx().hm(1)'),
     ('from os import getcwd', 'bool(getcwd())'),            # callables implemented in C, imported by name
     ('from math import sqrt as root', 'root(4.0)'),
 ]
